@@ -2,11 +2,15 @@
     - the decidable dyadic comparison used by the clause predicates is the comparison of reals;
     - the clause "a physical value is reproduced with an error BELOW one factor step" is false for
       exact reals on the faithful model (concrete witness);
-    - what is proved instead is stated at the end of the file. *)
+    - the raw round trip (raw -> ToPhysical -> setter comes back within one least-significant step)
+      is proved by a forward error analysis ([raw_roundtrip]);
+    - the physical round trip is proved with the bound of two steps ([phys_roundtrip]; the
+      analysis gives 1 + 0.13 + 0.14 steps). *)
 From Coq Require Import ZArith List Bool Lia Reals Lra.
 From Coq Require Import Floats.SpecFloat.
 From Flocq Require Import Core BinarySingleNaN.
 From Flocq Require Import Calc.Operations.
+From Flocq Require Import Relative Plus_error Mult_error.
 From CanVerif Require Import Can.Data Descriptor.Signal Descriptor.SignalProofs Descriptor.Physical
   Descriptor.FloatProofs Descriptor.PhysicalProofs.
 Open Scope R_scope.
@@ -83,4 +87,560 @@ Proof.
   revert N1 N2. generalize (Rabs (B2R w_back - B2R w_p)) (Rabs (B2R w_scale)). intros a b N1 N2.
   destruct (Rlt_bool_spec a (1 * b)); [discriminate|].
   destruct (Rlt_bool_spec a (2 * b)); [lra|discriminate].
+Qed.
+
+(** * Raw round trip: raw -> physical -> raw comes back within one step *)
+(** error model of one rounding: rnd64 y = y(1+e)+h, |e| <= 2^-53, |h| <= 2^-1075; sums of floats: h = 0 *)
+
+Definition uu : R := bpow radix2 (-53).
+Definition eta0 : R := bpow radix2 (-1075).
+
+Lemma u_ro_53 : u_ro radix2 53 = uu.
+Proof. unfold u_ro, uu. change (/2) with (bpow radix2 (-1)). rewrite <- bpow_plus. reflexivity. Qed.
+
+Lemma u_ro_frac_le : u_ro radix2 53 / (1 + u_ro radix2 53) <= uu.
+Proof.
+  rewrite u_ro_53. assert (0 < uu) by apply bpow_gt_0.
+  unfold Rdiv. rewrite <- (Rmult_1_r uu) at 3. apply Rmult_le_compat_l; [lra|].
+  rewrite <- Rinv_1. apply Rinv_le_contravar; lra.
+Qed.
+
+Lemma rnd64_err (y : R) : exists e h, Rabs e <= uu /\ Rabs h <= eta0 /\ rnd64 y = y * (1 + e) + h.
+Proof.
+  destruct (relative_error_N_FLT'_ex radix2 (3 - 1024 - 53) 53 eq_refl (fun x => negb (Z.even x)) y)
+    as (e & h & He & Hh & _ & E).
+  exists e, h. split; [apply Rle_trans with (1 := He), u_ro_frac_le|]. split; [|exact E].
+  apply Rle_trans with (1 := Hh). unfold eta0. change (/2) with (bpow radix2 (-1)). rewrite <- bpow_plus.
+  apply bpow_le. lia.
+Qed.
+
+Lemma rnd64_err_plus (a b : R) :
+  generic_format radix2 fexp64 a -> generic_format radix2 fexp64 b ->
+  exists e, Rabs e <= uu /\ rnd64 (a + b) = (a + b) * (1 + e).
+Proof.
+  intros Fa Fb.
+  destruct (FLT_plus_error_N_ex radix2 (3 - 1024 - 53) 53 (fun x => negb (Z.even x)) a b Fa Fb) as (e & He & E).
+  exists e. split; [apply Rle_trans with (1 := He), u_ro_frac_le|exact E].
+Qed.
+
+Lemma format_B2R (x : f64) : generic_format radix2 fexp64 (B2R x).
+Proof. apply (generic_format_B2R 53 1024). Qed.
+
+(** no overflow below 2^1023 *)
+Lemma rnd64_small (y : R) (B : Z) : (-1074 <= B <= 1023)%Z -> Rabs y <= bpow radix2 B -> Rabs (rnd64 y) < Omega.
+Proof.
+  intros HB Hy. apply Rle_lt_trans with (bpow radix2 B).
+  - unfold rnd64. apply abs_round_le_generic; [apply fexp64_valid|apply valid_rnd_N| |exact Hy].
+    apply generic_format_bpow. unfold fexp64, FLT_exp. lia.
+  - unfold Omega. apply bpow_lt. lia.
+Qed.
+
+Lemma op_val (z : f64) (y : R) (B : Z) :
+  nn z /\ ext z = clip (rnd64 y) -> (-1074 <= B <= 1023)%Z -> Rabs y <= bpow radix2 B ->
+  fin z /\ B2R z = rnd64 y.
+Proof.
+  intros [N E] HB Hy. pose proof (rnd64_small y B HB Hy) as A. rewrite clip_id in E by exact A.
+  assert (F : fin z) by (apply ext_fin_iff; [exact N|rewrite E; exact A]).
+  split; [exact F|]. rewrite <- (fin_ext z F). exact E.
+Qed.
+
+
+Lemma pow2_f_val e : (-1074 <= e <= 1023)%Z -> fin (pow2_f e) /\ B2R (pow2_f e) = bpow radix2 e.
+Proof.
+  intros He. pose proof (binary_normalize_correct 53 1024 _ _ mode_NE 1 e false) as C.
+  cbv zeta in C. cbn [round_mode] in C. norm_rnd C. rewrite F2R_bpow in C.
+  assert (G : rnd64 (bpow radix2 e) = bpow radix2 e).
+  { unfold rnd64. apply round_generic; [apply valid_rnd_N|]. apply generic_format_bpow. unfold fexp64, FLT_exp. lia. }
+  rewrite G in C. rewrite Rabs_pos_eq in C by apply bpow_ge_0.
+  rewrite Rlt_bool_true in C by (unfold Omega; apply bpow_lt; lia).
+  destruct C as (C1 & C2 & _). split; assumption.
+Qed.
+
+Lemma mag_ok_inv (x : f64) : fin x -> mag_ok x = true ->
+  bpow radix2 (-960) <= Rabs (B2R x) <= bpow radix2 960.
+Proof.
+  intros Fx H. unfold mag_ok in H. apply andb_true_iff in H. destruct H as [H1 H2].
+  assert (Fa : fin (Babs x)) by (unfold fin; rewrite is_finite_Babs; exact Fx).
+  destruct (pow2_f_val (-960) ltac:(lia)) as [F1 E1]. destruct (pow2_f_val 960 ltac:(lia)) as [F2 E2].
+  rewrite Bleb_correct in H1, H2 by assumption. rewrite B2R_Babs in H1, H2. rewrite E1 in H1. rewrite E2 in H2.
+  split.
+  - destruct (Rle_bool_spec (bpow radix2 (-960)) (Rabs (B2R x))); [assumption|discriminate].
+  - destruct (Rle_bool_spec (Rabs (B2R x)) (bpow radix2 960)); [assumption|discriminate].
+Qed.
+
+Lemma resolves_inv (scale offset : f64) : fin scale -> fin offset -> resolves_f scale offset = true ->
+  bpow radix2 (-960) <= Rabs (B2R scale) <= bpow radix2 960 /\
+  Rabs (B2R offset) <= bpow radix2 50 * Rabs (B2R scale).
+Proof.
+  intros Fs Fo H. unfold resolves_f in H. apply andb_true_iff in H. destruct H as [H H3].
+  apply andb_true_iff in H. destruct H as [H1 _].
+  pose proof (mag_ok_inv scale Fs H1) as M. split; [exact M|].
+  assert (Fas : fin (Babs scale)) by (unfold fin; rewrite is_finite_Babs; exact Fs).
+  assert (Fao : fin (Babs offset)) by (unfold fin; rewrite is_finite_Babs; exact Fo).
+  destruct (pow2_f_val 50 ltac:(lia)) as [F50 E50].
+  assert (Y : Rabs (B2R (pow2_f 50) * B2R (Babs scale)) <= bpow radix2 1010).
+  { rewrite E50, B2R_Babs. rewrite Rabs_mult, Rabs_Rabsolu, Rabs_pos_eq by apply bpow_ge_0.
+    change 1010%Z with (50 + 960)%Z. rewrite bpow_plus. apply Rmult_le_compat_l; [apply bpow_ge_0|apply M]. }
+  destruct (op_val _ _ 1010 (fmul_ext (pow2_f 50) (Babs scale) F50 Fas) ltac:(lia) Y) as [Fm Em].
+  rewrite Bleb_correct in H3 by assumption. rewrite Em, E50, !B2R_Babs in H3.
+  assert (G : rnd64 (bpow radix2 50 * Rabs (B2R scale)) = bpow radix2 50 * Rabs (B2R scale)).
+  { unfold rnd64. apply round_generic; [apply valid_rnd_N|]. rewrite Rmult_comm.
+    apply (mult_bpow_pos_exact_FLT radix2 (3 - 1024 - 53) 53 (Rabs (B2R scale)) 50); [|lia].
+    apply generic_format_abs. apply format_B2R. }
+  rewrite G in H3.
+  destruct (Rle_bool_spec (Rabs (B2R offset)) (bpow radix2 50 * Rabs (B2R scale))); [assumption|discriminate].
+Qed.
+
+(** product of a bounded quantity and a relative error *)
+Lemma prod_bound a e A : Rabs a <= A -> Rabs e <= uu -> Rabs (a * e) <= A * uu.
+Proof.
+  intros Ha He. rewrite Rabs_mult. apply Rmult_le_compat; try apply Rabs_pos; assumption.
+Qed.
+
+Lemma uu_val : uu = / 9007199254740992.
+Proof. unfold uu. cbn. lra. Qed.
+
+Lemma bpow32 : bpow radix2 32 = 4294967296. Proof. cbn. lra. Qed.
+Lemma bpow50 : bpow radix2 50 = 1125899906842624. Proof. cbn. lra. Qed.
+
+(** eta/|S| is negligible *)
+Lemma eta_over_S (h S : R) : Rabs h <= eta0 -> bpow radix2 (-960) <= Rabs S -> Rabs (h / S) <= uu.
+Proof.
+  intros Hh HS. assert (0 < bpow radix2 (-960)) by apply bpow_gt_0.
+  unfold Rdiv. rewrite Rabs_mult, Rabs_inv.
+  apply Rle_trans with (eta0 * / bpow radix2 (-960)).
+  - apply Rmult_le_compat; [apply Rabs_pos|apply Rlt_le, Rinv_0_lt_compat; lra|exact Hh|].
+    apply Rinv_le_contravar; [assumption|exact HS].
+  - unfold eta0, uu. rewrite <- bpow_opp, <- bpow_plus. apply bpow_le. lia.
+Qed.
+
+
+Lemma rnd64_abs_le (y : R) (B : Z) : (-1074 <= B)%Z -> Rabs y <= bpow radix2 B -> Rabs (rnd64 y) <= bpow radix2 B.
+Proof.
+  intros HB Hy. unfold rnd64. apply abs_round_le_generic; [apply fexp64_valid|apply valid_rnd_N| |exact Hy].
+  apply generic_format_bpow. unfold fexp64, FLT_exp. lia.
+Qed.
+
+Lemma bpow_S2 B : bpow radix2 (B + 1) = 2 * bpow radix2 B.
+Proof. rewrite bpow_plus. change (bpow radix2 1) with 2. ring. Qed.
+
+Lemma eta0_le_uu : eta0 <= uu.
+Proof. unfold eta0, uu. apply bpow_le. lia. Qed.
+
+(** the real-number core of the raw round trip *)
+Lemma rt_chain (R S O e1 e2 e3 h1 : R) :
+  S <> 0 -> Rabs R <= 4294967296 -> Rabs O <= 1125899906842624 * Rabs S ->
+  Rabs e1 <= uu -> Rabs e2 <= uu -> Rabs e3 <= uu -> Rabs (h1 / S) <= uu ->
+  let M := R * S * (1 + e1) + h1 in
+  let X := (M + O) * (1 + e2) in
+  let T := (X - O) * (1 + e3) in
+  Rabs (T / S - R) <= / 2.
+Proof.
+  intros HS HR HO He1 He2 He3 Hk M X T.
+  set (w := O / S). set (k1 := h1 / S) in *.
+  assert (Hw : Rabs w <= 1125899906842624).
+  { unfold w, Rdiv. rewrite Rabs_mult, Rabs_inv.
+    assert (0 < Rabs S) by (apply Rabs_pos_lt; exact HS).
+    apply Rmult_le_reg_r with (Rabs S); [assumption|]. rewrite Rmult_assoc, Rinv_l by lra. lra. }
+  set (a1 := R * (1 + e1) + k1).
+  set (p1 := R * e1).
+  set (p2 := (a1 + w) * e2).
+  set (p3 := (a1 + p2) * e3).
+  assert (E : T / S = R + p1 + k1 + p2 + p3).
+  { unfold T, X, M, p3, p2, p1, a1, k1, w. field. exact HS. }
+  rewrite uu_val in *.
+  assert (B1 : Rabs p1 <= 4294967296 * / 9007199254740992).
+  { unfold p1. rewrite <- uu_val. apply prod_bound; [exact HR|rewrite uu_val; exact He1]. }
+  assert (A1 : Rabs a1 <= 8589934592).
+  { unfold a1. replace (R * (1 + e1) + k1) with (R + p1 + k1) by (unfold p1; ring).
+    apply Rabs_le. apply Rabs_le_inv in HR, B1, Hk. lra. }
+  assert (B2 : Rabs p2 <= 2251799813685248 * / 9007199254740992).
+  { unfold p2. rewrite <- uu_val. apply prod_bound; [|rewrite uu_val; exact He2].
+    apply Rabs_le. apply Rabs_le_inv in A1, Hw. lra. }
+  assert (B3 : Rabs p3 <= 17179869184 * / 9007199254740992).
+  { unfold p3. rewrite <- uu_val. apply prod_bound; [|rewrite uu_val; exact He3].
+    apply Rabs_le. apply Rabs_le_inv in A1, B2. lra. }
+  rewrite E. apply Rabs_le. apply Rabs_le_inv in B1, B2, B3, Hk. lra.
+Qed.
+
+Lemma clamp_interval lo hi r q d : lo <= r <= hi -> 0 <= d -> r - d <= q <= r + d ->
+  r - d <= Rmax lo (Rmin hi q) <= r + d.
+Proof.
+  intros Hr Hd Hq. split.
+  - apply Rle_trans with (Rmin hi q); [|apply Rmax_r]. apply Rmin_glb; lra.
+  - apply Rmax_lub; [lra|]. apply Rle_trans with q; [apply Rmin_r|lra].
+Qed.
+
+(** clamping a value that is inside the declared range (or when no range is declared) keeps it *)
+Lemma clamp_opt_value mn mx (y : f64) :
+  fin mn -> fin mx -> B2R mn <= B2R mx -> fin y ->
+  (declared_f mn mx = true -> B2R mn <= B2R y <= B2R mx) ->
+  fin (clamp_opt_f mn mx y) /\ B2R (clamp_opt_f mn mx y) = B2R y.
+Proof.
+  intros Fmn Fmx Hle Fy H. unfold clamp_opt_f. destruct (declared_f mn mx); [|split; [exact Fy|reflexivity]].
+  specialize (H eq_refl). destruct (clamp_f_ext mn mx y Fmn Fmx Hle (fin_nn _ Fy)) as (F & E & _).
+  split; [exact F|]. rewrite E, (fin_ext y Fy). rewrite Rmin_left by lra. rewrite Rmax_right by lra. reflexivity.
+Qed.
+
+Lemma in_range_inv mn mx (y : f64) : fin mn -> fin mx -> in_range_f mn mx y = true ->
+  fin y /\ (declared_f mn mx = true -> B2R mn <= B2R y <= B2R mx).
+Proof.
+  intros Fmn Fmx H. unfold in_range_f, finiteb in H. apply andb_true_iff in H. destruct H as [Fy H].
+  split; [exact Fy|]. intros D. rewrite D in H. cbn [negb orb] in H. apply andb_true_iff in H. destruct H as [H1 H2].
+  rewrite Bleb_correct in H1, H2 by assumption.
+  split; [destruct (Rle_bool_spec (B2R mn) (B2R y))|destruct (Rle_bool_spec (B2R y) (B2R mx))]; try assumption; discriminate.
+Qed.
+
+Lemma raw_abs_le signed len r : (1 <= len <= 32)%Z -> (raw_lo signed len <= r <= raw_hi signed len)%Z ->
+  (Z.abs r <= 2 ^ 32)%Z.
+Proof.
+  intros Hl Hr. unfold raw_lo, raw_hi in Hr.
+  assert (0 < 2 ^ (len - 1) <= 2 ^ 31)%Z by (split; [apply Z.pow_pos_nonneg; lia|apply Z.pow_le_mono_r; lia]).
+  assert (0 < 2 ^ len <= 2 ^ 32)%Z by (split; [apply Z.pow_pos_nonneg; lia|apply Z.pow_le_mono_r; lia]).
+  change (2 ^ 32)%Z with (2 * 2 ^ 31)%Z in *. destruct signed; lia.
+Qed.
+
+Section RawRoundTrip.
+Variables scale offset mn mx : f64.
+Hypothesis Hclass : c09_class_f scale offset mn mx = true.
+Hypothesis Hres : resolves_f scale offset = true.
+Variable signed : bool.
+Variables len r : Z.
+Hypothesis Hl : (1 <= len <= 32)%Z.
+Hypothesis Hr : (raw_lo signed len <= r <= raw_hi signed len)%Z.
+Hypothesis Hin : in_range_f mn mx (fadd (fmul (f64_of_Z r) scale) offset) = true.
+
+Theorem raw_roundtrip :
+  (Z.abs (setter_raw_f scale offset mn mx signed len (to_physical_f scale offset mn mx (f64_of_Z r)) - r) <= 1)%Z.
+Proof.
+  destruct (class_inv _ _ _ _ Hclass) as (Hs & Fo & Fmn & Fmx & Hle).
+  destruct (nonzerob_inv scale Hs) as [Fs NS].
+  destruct (resolves_inv scale offset Fs Fo Hres) as [[S1 S2] HO].
+  pose proof (raw_abs_le signed len r Hl Hr) as Hrz.
+  assert (HR : Rabs (IZR r) <= 4294967296).
+  { rewrite <- abs_IZR. change 4294967296 with (IZR (2 ^ 32)). apply IZR_le, Hrz. }
+  destruct (f64_of_Z_exact r ltac:(change (2 ^ 53)%Z with (2 ^ 32 * 2 ^ 21)%Z; lia)) as [FV EV].
+  set (V := f64_of_Z r) in *. set (S := B2R scale) in *. set (O := B2R offset) in *. set (R := IZR r) in *.
+  (* m = fl(R*S) *)
+  assert (Y1 : Rabs (B2R V * S) <= bpow radix2 992).
+  { rewrite EV, Rabs_mult. change 992%Z with (32 + 960)%Z. rewrite bpow_plus, bpow32.
+    apply Rmult_le_compat; try apply Rabs_pos; assumption. }
+  destruct (op_val _ _ 992 (fmul_ext V scale FV Fs) ltac:(lia) Y1) as [Fm Em]. rewrite EV in Em. fold S in Em.
+  destruct (rnd64_err (R * S)) as (e1 & h1 & He1 & Hh1 & E1).
+  assert (BM : Rabs (B2R (fmul V scale)) <= bpow radix2 992).
+  { rewrite Em. apply rnd64_abs_le; [lia|]. rewrite <- EV. exact Y1. }
+  (* x = fl(m + O) *)
+  assert (BO : Rabs O <= bpow radix2 1010).
+  { apply Rle_trans with (1 := HO). change 1010%Z with (50 + 960)%Z. rewrite bpow_plus.
+    apply Rmult_le_compat_l; [apply bpow_ge_0|exact S2]. }
+  assert (Y2 : Rabs (B2R (fmul V scale) + O) <= bpow radix2 1011).
+  { apply Rle_trans with (1 := Rabs_triang _ _). change 1011%Z with (1010 + 1)%Z. rewrite bpow_S2.
+    assert (bpow radix2 992 <= bpow radix2 1010) by (apply bpow_le; lia). lra. }
+  destruct (op_val _ _ 1011 (fadd_ext _ offset Fm Fo) ltac:(lia) Y2) as [Fx Ex]. fold O in Ex.
+  destruct (rnd64_err_plus (B2R (fmul V scale)) O (format_B2R _) (format_B2R _)) as (e2 & He2 & E2).
+  set (x := fadd (fmul V scale) offset) in *.
+  assert (BX : Rabs (B2R x) <= bpow radix2 1011) by (rewrite Ex; apply rnd64_abs_le; [lia|exact Y2]).
+  (* to_physical = x in value *)
+  destruct (in_range_inv mn mx x Fmn Fmx Hin) as [_ Hrange].
+  destruct (clamp_opt_value mn mx x Fmn Fmx Hle Fx Hrange) as [Ftp Etp].
+  change (clamp_opt_f mn mx x) with (to_physical_f scale offset mn mx V) in Ftp, Etp.
+  set (tp := to_physical_f scale offset mn mx V) in *.
+  (* clamp inside from_physical: again the same value *)
+  assert (Hrange' : declared_f mn mx = true -> B2R mn <= B2R tp <= B2R mx) by (rewrite Etp; exact Hrange).
+  destruct (clamp_opt_value mn mx tp Fmn Fmx Hle Ftp Hrange') as [Fc Ec]. rewrite Etp in Ec.
+  set (c := clamp_opt_f mn mx tp) in *.
+  (* t = fl(X - O) *)
+  assert (Y3 : Rabs (B2R c - O) <= bpow radix2 1012).
+  { rewrite Ec. unfold Rminus. apply Rle_trans with (1 := Rabs_triang _ _). rewrite Rabs_Ropp.
+    change 1012%Z with (1011 + 1)%Z. rewrite bpow_S2.
+    assert (bpow radix2 1010 <= bpow radix2 1011) by (apply bpow_le; lia). lra. }
+  destruct (op_val _ _ 1012 (fsub_ext c offset Fc Fo) ltac:(lia) Y3) as [Ft Et]. fold O in Et. rewrite Ec in Et.
+  destruct (rnd64_err_plus (B2R x) (- O) (format_B2R _) (generic_format_opp _ _ _ (format_B2R _))) as (e3 & He3 & E3).
+  (* the real-number chain *)
+  pose proof (rt_chain R S O e1 e2 e3 h1 NS HR) as CH.
+  rewrite bpow50 in HO. specialize (CH HO He1 He2 He3 (eta_over_S h1 S Hh1 S1)). cbv zeta in CH.
+  assert (ET : B2R (fsub c offset) = ((R * S * (1 + e1) + h1 + O) * (1 + e2) - O) * (1 + e3)).
+  { rewrite Et. unfold Rminus. rewrite E3, Ex, E2, Em, E1. reflexivity. }
+  rewrite <- ET in CH. set (t := fsub c offset) in *.
+  (* q = fl(T/S) *)
+  assert (A3 : Rabs (B2R t / S) <= bpow radix2 34).
+  { apply Rabs_le. apply Rabs_le_inv in CH, HR. replace (bpow radix2 34) with 17179869184 by (cbn; lra). lra. }
+  destruct (op_val _ _ 34 (fdiv_ext t scale Ft Fs NS) ltac:(lia) A3) as [Fq Eq]. fold S in Eq.
+  destruct (rnd64_err (B2R t / S)) as (e4 & h4 & He4 & Hh4 & E4).
+  assert (BQ : R - 1 <= B2R (fdiv t scale) <= R + 1).
+  { rewrite Eq, E4. replace (bpow radix2 34) with 17179869184 in A3 by (cbn; lra).
+    pose proof (prod_bound _ _ _ A3 He4) as P4. rewrite uu_val in P4.
+    pose proof (Rle_trans _ _ _ Hh4 eta0_le_uu) as H4. rewrite uu_val in H4.
+    apply Rabs_le_inv in CH, P4, H4. lra. }
+  (* saturation and truncation *)
+  assert (Hl52 : (1 <= len <= 52)%Z) by lia.
+  destruct (from_physical_saturates scale offset mn mx Hclass signed len tp Hl52 (fin_nn _ Ftp)) as (Fr & _ & _).
+  destruct (from_physical_f_ext scale offset mn mx Hclass signed len tp (fin_nn _ Ftp)) as [_ Er].
+  destruct (raw_lo_f_exact signed len Hl52) as [Flo Elo]. destruct (raw_hi_f_exact signed len Hl52) as [Fhi Ehi].
+  rewrite (fin_ext _ Fr), (fin_ext _ Flo), (fin_ext _ Fhi), Elo, Ehi in Er.
+  change (fdiv (fsub (clamp_opt_f mn mx tp) offset) scale) with (fdiv t scale) in Er.
+  rewrite (fin_ext _ Fq) in Er.
+  assert (HRr : IZR (raw_lo signed len) <= R <= IZR (raw_hi signed len)) by (split; apply IZR_le; apply Hr).
+  pose proof (clamp_interval _ _ R _ 1 HRr ltac:(lra) BQ) as BY. rewrite <- Er in BY.
+  assert (BT : (r - 1 <= Btrunc (from_physical_f scale offset mn mx signed len tp) <= r + 1)%Z).
+  { apply Btrunc_between. rewrite minus_IZR, plus_IZR. exact BY. }
+  unfold setter_raw_f. lia.
+Qed.
+End RawRoundTrip.
+
+(** the decidable raw round-trip clause evaluated by the driver holds of the model *)
+Lemma raw_in_range_spec signed len r : (1 <= len <= 64)%Z ->
+  raw_in_range signed len r = true -> (raw_lo signed len <= r <= raw_hi signed len)%Z.
+Proof.
+  intros Hl H. unfold raw_in_range in H. destruct (bounds_exact len Hl) as (E1 & E2 & E3).
+  unfold raw_lo, raw_hi. destruct signed; apply andb_true_iff in H; destruct H as [H1 H2];
+    apply Z.leb_le in H1, H2; lia.
+Qed.
+
+Theorem rt_raw_ok_model scale offset mn mx signed len r :
+  c09_class_f scale offset mn mx = true -> (1 <= len <= 64)%Z ->
+  rt_raw_ok_f scale offset mn mx signed len r
+    (setter_raw_f scale offset mn mx signed len (to_physical_f scale offset mn mx (f64_of_Z r))) = true.
+Proof.
+  intros Hc Hl. unfold rt_raw_ok_f.
+  destruct ((len <=? 32)%Z) eqn:L; [|reflexivity]. cbn [andb].
+  destruct (resolves_f scale offset) eqn:Rs; [|reflexivity]. cbn [andb].
+  destruct (raw_in_range signed len r) eqn:Rr; [|reflexivity]. cbn [andb].
+  destruct (in_range_f mn mx (fadd (fmul (f64_of_Z r) scale) offset)) eqn:Ir; [|reflexivity].
+  apply Z.leb_le. apply Z.leb_le in L.
+  apply raw_roundtrip; try assumption; [lia|]. apply raw_in_range_spec; assumption.
+Qed.
+
+(** * Physical round trip: physical -> raw -> physical is reproduced within two steps *)
+
+(** truncation moves a value by less than one *)
+Lemma Btrunc_err (x : f64) : Rabs (IZR (Btrunc x) - B2R x) < 1.
+Proof.
+  rewrite (Btrunc_correct 53 1024 _ x). destruct (Req_dec (B2R x) 0) as [E|N].
+  - rewrite E, round_0 by apply valid_rnd_ZR. rewrite Rminus_0_r, Rabs_R0. lra.
+  - pose proof (error_lt_ulp radix2 (FIX_exp 0) Ztrunc (B2R x) N) as H. rewrite ulp_FIX in H. exact H.
+Qed.
+
+(** the real-number core of the linear rule: fl(fl(R*S)+O) is R steps away from O, up to 0.13 step *)
+Lemma lin_chain (R S O e1 e2 h1 : R) :
+  S <> 0 -> Rabs R <= 4294967296 -> Rabs O <= 1125899906842624 * Rabs S ->
+  Rabs e1 <= uu -> Rabs e2 <= uu -> Rabs (h1 / S) <= uu ->
+  let X := (R * S * (1 + e1) + h1 + O) * (1 + e2) in
+  Rabs ((X - O) / S - R) <= 13 / 100.
+Proof.
+  intros HS HR HO He1 He2 Hk X.
+  set (w := O / S). set (k1 := h1 / S) in *.
+  assert (Hw : Rabs w <= 1125899906842624).
+  { unfold w, Rdiv. rewrite Rabs_mult, Rabs_inv.
+    assert (0 < Rabs S) by (apply Rabs_pos_lt; exact HS).
+    apply Rmult_le_reg_r with (Rabs S); [assumption|]. rewrite Rmult_assoc, Rinv_l by lra. lra. }
+  set (p1 := R * e1). set (a1 := R + p1 + k1). set (p2 := (a1 + w) * e2).
+  assert (E : (X - O) / S = R + p1 + k1 + p2).
+  { unfold X, p2, a1, p1, k1, w. field. exact HS. }
+  rewrite uu_val in *.
+  assert (B1 : Rabs p1 <= 4294967296 * / 9007199254740992).
+  { unfold p1. rewrite <- uu_val. apply prod_bound; [exact HR|rewrite uu_val; exact He1]. }
+  assert (A1 : Rabs a1 <= 8589934592).
+  { unfold a1. apply Rabs_le. apply Rabs_le_inv in HR, B1, Hk. lra. }
+  assert (B2 : Rabs p2 <= 1125908496777216 * / 9007199254740992).
+  { unfold p2. rewrite <- uu_val. apply prod_bound; [|rewrite uu_val; exact He2].
+    apply Rabs_le. apply Rabs_le_inv in A1, Hw. lra. }
+  rewrite E. apply Rabs_le. apply Rabs_le_inv in B1, B2, Hk. lra.
+Qed.
+
+Lemma between_affine (S O A B P : R) : S <> 0 ->
+  (A <= P <= B \/ B <= P <= A) ->
+  ((A - O) / S <= (P - O) / S <= (B - O) / S \/ (B - O) / S <= (P - O) / S <= (A - O) / S).
+Proof.
+  intros HS H. destruct (Rdichotomy _ _ HS) as [Neg|Pos].
+  - assert (I : 0 < - / S) by (apply Ropp_0_gt_lt_contravar, Rinv_lt_0_compat, Neg).
+    assert (M : forall u v, u <= v -> (v - O) / S <= (u - O) / S).
+    { intros u v L. unfold Rdiv.
+      replace ((v - O) * / S) with (- ((v - O) * - / S)) by ring.
+      replace ((u - O) * / S) with (- ((u - O) * - / S)) by ring.
+      apply Ropp_le_contravar. apply Rmult_le_compat_r; lra. }
+    destruct H as [[H1 H2]|[H1 H2]]; [right|left]; split; apply M; assumption.
+  - assert (I : 0 < / S) by (apply Rinv_0_lt_compat, Pos).
+    assert (M : forall u v, u <= v -> (u - O) / S <= (v - O) / S).
+    { intros u v L. unfold Rdiv. apply Rmult_le_compat_r; lra. }
+    destruct H as [[H1 H2]|[H1 H2]]; [left|right]; split; apply M; assumption.
+Qed.
+
+Section Linear.
+Variables scale offset : f64.
+Hypothesis Fs : fin scale.
+Hypothesis Fo : fin offset.
+Hypothesis NS : B2R scale <> 0.
+Hypothesis S1 : bpow radix2 (-960) <= Rabs (B2R scale).
+Hypothesis S2 : Rabs (B2R scale) <= bpow radix2 960.
+Hypothesis HO : Rabs (B2R offset) <= bpow radix2 50 * Rabs (B2R scale).
+
+(** the linear value of a raw value |R| <= 2^32: finite, far from overflow, R steps from the offset *)
+Lemma linear_of_raw (V : f64) (R : R) :
+  fin V -> B2R V = R -> Rabs R <= 4294967296 ->
+  let x := fadd (fmul V scale) offset in
+  fin x /\ Rabs (B2R x) <= bpow radix2 1011 /\
+  Rabs ((B2R x - B2R offset) / B2R scale - R) <= 13 / 100.
+Proof.
+  intros FV EV HR x. set (S := B2R scale) in *. set (O := B2R offset) in *.
+  assert (Y1 : Rabs (B2R V * S) <= bpow radix2 992).
+  { rewrite EV, Rabs_mult. change 992%Z with (32 + 960)%Z. rewrite bpow_plus, bpow32.
+    apply Rmult_le_compat; try apply Rabs_pos; assumption. }
+  destruct (op_val _ _ 992 (fmul_ext V scale FV Fs) ltac:(lia) Y1) as [Fm Em]. rewrite EV in Em. fold S in Em.
+  destruct (rnd64_err (R * S)) as (e1 & h1 & He1 & Hh1 & E1).
+  assert (BM : Rabs (B2R (fmul V scale)) <= bpow radix2 992).
+  { rewrite Em. apply rnd64_abs_le; [lia|]. rewrite <- EV. exact Y1. }
+  assert (BO : Rabs O <= bpow radix2 1010).
+  { apply Rle_trans with (1 := HO). change 1010%Z with (50 + 960)%Z. rewrite bpow_plus.
+    apply Rmult_le_compat_l; [apply bpow_ge_0|exact S2]. }
+  assert (Y2 : Rabs (B2R (fmul V scale) + O) <= bpow radix2 1011).
+  { apply Rle_trans with (1 := Rabs_triang _ _). change 1011%Z with (1010 + 1)%Z. rewrite bpow_S2.
+    assert (bpow radix2 992 <= bpow radix2 1010) by (apply bpow_le; lia). lra. }
+  destruct (op_val _ _ 1011 (fadd_ext _ offset Fm Fo) ltac:(lia) Y2) as [Fx Ex]. fold O in Ex.
+  destruct (rnd64_err_plus (B2R (fmul V scale)) O (format_B2R _) (format_B2R _)) as (e2 & He2 & E2).
+  split; [exact Fx|]. split; [unfold x; rewrite Ex; apply rnd64_abs_le; [lia|exact Y2]|].
+  unfold x. rewrite Ex, E2, Em, E1.
+  pose proof HO as HO'. rewrite bpow50 in HO'.
+  exact (lin_chain R S O e1 e2 h1 NS HR HO' He1 He2 (eta_over_S h1 S Hh1 S1)).
+Qed.
+End Linear.
+
+
+Lemma Bleb_fin_le (x y : f64) : fin x -> fin y -> Bleb x y = true -> B2R x <= B2R y.
+Proof.
+  intros Fx Fy H. rewrite Bleb_correct in H by assumption.
+  destruct (Rle_bool_spec (B2R x) (B2R y)); [assumption|discriminate].
+Qed.
+
+Section PhysRoundTrip.
+Variables scale offset mn mx : f64.
+Hypothesis Hclass : c09_class_f scale offset mn mx = true.
+Hypothesis Hres : resolves_f scale offset = true.
+Variable signed : bool.
+Variable len : Z.
+Variable p : f64.
+Hypothesis Hl : (1 <= len <= 32)%Z.
+Hypothesis Fp : fin p.
+Hypothesis Hin : in_range_f mn mx p = true.
+Hypothesis Hrep : in_representable_f scale offset signed len p = true.
+
+Theorem phys_roundtrip :
+  let back := to_physical_f scale offset mn mx (f64_of_Z (setter_raw_f scale offset mn mx signed len p)) in
+  fin back /\ Rabs (B2R back - B2R p) < 2 * Rabs (B2R scale).
+Proof.
+  destruct (class_inv _ _ _ _ Hclass) as (Hs & Fo & Fmn & Fmx & Hle).
+  destruct (nonzerob_inv scale Hs) as [Fs NS].
+  destruct (resolves_inv scale offset Fs Fo Hres) as [[S1 S2] HO].
+  assert (Hl52 : (1 <= len <= 52)%Z) by lia.
+  destruct (raw_lo_f_exact signed len Hl52) as [Flo Elo]. destruct (raw_hi_f_exact signed len Hl52) as [Fhi Ehi].
+  pose proof (raw_lo_le_hi signed len ltac:(lia)) as Hlohi.
+  assert (HLO : Rabs (IZR (raw_lo signed len)) <= 4294967296).
+  { rewrite <- abs_IZR. change 4294967296 with (IZR (2 ^ 32)). apply IZR_le.
+    apply (raw_abs_le signed len _ Hl). lia. }
+  assert (HHI : Rabs (IZR (raw_hi signed len)) <= 4294967296).
+  { rewrite <- abs_IZR. change 4294967296 with (IZR (2 ^ 32)). apply IZR_le.
+    apply (raw_abs_le signed len _ Hl). lia. }
+  set (S := B2R scale) in *. set (O := B2R offset) in *. set (P := B2R p) in *.
+  set (LO := IZR (raw_lo signed len)) in *. set (HI := IZR (raw_hi signed len)) in *.
+  assert (HLH : LO <= HI) by (apply IZR_le, Hlohi).
+  (* the physical values of the raw extremes *)
+  destruct (linear_of_raw scale offset Fs Fo NS S1 S2 HO _ LO Flo Elo HLO) as (Fa & BA & EA).
+  destruct (linear_of_raw scale offset Fs Fo NS S1 S2 HO _ HI Fhi Ehi HHI) as (Fb & BB & EB).
+  fold S O in EA, EB.
+  set (a := fadd (fmul (raw_lo_f signed len) scale) offset) in *.
+  set (b := fadd (fmul (raw_hi_f signed len) scale) offset) in *.
+  assert (Hbetween : B2R a <= P <= B2R b \/ B2R b <= P <= B2R a).
+  { unfold in_representable_f, phys_of_raw_f in Hrep. cbv zeta in Hrep. fold a b in Hrep.
+    apply orb_true_iff in Hrep. destruct Hrep as [H|H]; apply andb_true_iff in H; destruct H as [H1 H2];
+      [left|right]; split; apply Bleb_fin_le; assumption. }
+  set (z := (P - O) / S).
+  assert (Hz : LO - 13 / 100 <= z <= HI + 13 / 100).
+  { pose proof (between_affine S O (B2R a) (B2R b) P NS Hbetween) as Hb. fold z in Hb.
+    apply Rabs_le_inv in EA, EB. lra. }
+  assert (BP : Rabs P <= bpow radix2 1011).
+  { apply Rabs_le. apply Rabs_le_inv in BA, BB. lra. }
+  assert (Bz : Rabs z <= 8589934592) by (apply Rabs_le; apply Rabs_le_inv in HLO, HHI; lra).
+  (* FromPhysical: clamp keeps p *)
+  destruct (in_range_inv mn mx p Fmn Fmx Hin) as [_ Hrange]. fold P in Hrange.
+  destruct (clamp_opt_value mn mx p Fmn Fmx Hle Fp Hrange) as [Fc Ec]. fold P in Ec.
+  set (c := clamp_opt_f mn mx p) in *.
+  assert (BO : Rabs O <= bpow radix2 1010).
+  { apply Rle_trans with (1 := HO). change 1010%Z with (50 + 960)%Z. rewrite bpow_plus.
+    apply Rmult_le_compat_l; [apply bpow_ge_0|exact S2]. }
+  assert (Y3 : Rabs (B2R c - O) <= bpow radix2 1012).
+  { rewrite Ec. unfold Rminus. apply Rle_trans with (1 := Rabs_triang _ _). rewrite Rabs_Ropp.
+    change 1012%Z with (1011 + 1)%Z. rewrite bpow_S2.
+    assert (bpow radix2 1010 <= bpow radix2 1011) by (apply bpow_le; lia). lra. }
+  destruct (op_val _ _ 1012 (fsub_ext c offset Fc Fo) ltac:(lia) Y3) as [Ft Et]. fold O in Et. rewrite Ec in Et.
+  destruct (rnd64_err_plus P (- O) (format_B2R _) (generic_format_opp _ _ _ (format_B2R _))) as (e5 & He5 & E5).
+  set (t := fsub c offset) in *.
+  assert (ETS : B2R t / S = z + z * e5).
+  { rewrite Et. unfold Rminus. rewrite E5. unfold z. field. exact NS. }
+  pose proof (prod_bound z e5 _ Bz He5) as P5. rewrite uu_val in P5.
+  assert (A3 : Rabs (B2R t / S) <= bpow radix2 34).
+  { rewrite ETS. replace (bpow radix2 34) with 17179869184 by (cbn; lra).
+    apply Rabs_le. apply Rabs_le_inv in Bz, P5. lra. }
+  destruct (op_val _ _ 34 (fdiv_ext t scale Ft Fs NS) ltac:(lia) A3) as [Fq Eq]. fold S in Eq.
+  destruct (rnd64_err (B2R t / S)) as (e6 & h6 & He6 & Hh6 & E6).
+  assert (BQ : z - / 262144 <= B2R (fdiv t scale) <= z + / 262144).
+  { rewrite Eq, E6. replace (bpow radix2 34) with 17179869184 in A3 by (cbn; lra).
+    pose proof (prod_bound _ _ _ A3 He6) as P6. rewrite uu_val in P6.
+    pose proof (Rle_trans _ _ _ Hh6 eta0_le_uu) as H6. rewrite uu_val in H6.
+    rewrite ETS in *. apply Rabs_le_inv in P5, P6, H6. lra. }
+  (* saturation *)
+  destruct (from_physical_saturates scale offset mn mx Hclass signed len p Hl52 (fin_nn _ Fp)) as (Fr & _ & HT).
+  destruct (from_physical_f_ext scale offset mn mx Hclass signed len p (fin_nn _ Fp)) as [_ Er].
+  rewrite (fin_ext _ Fr), (fin_ext _ Flo), (fin_ext _ Fhi), Elo, Ehi in Er.
+  change (fdiv (fsub (clamp_opt_f mn mx p) offset) scale) with (fdiv t scale) in Er.
+  rewrite (fin_ext _ Fq) in Er. fold LO HI in Er.
+  set (res := from_physical_f scale offset mn mx signed len p) in *.
+  assert (BY : z - 14 / 100 <= B2R res <= z + 14 / 100).
+  { rewrite Er. split.
+    - apply Rle_trans with (Rmin HI (B2R (fdiv t scale))); [|apply Rmax_r]. apply Rmin_glb; lra.
+    - apply Rmax_lub; [lra|]. apply Rle_trans with (B2R (fdiv t scale)); [apply Rmin_r|lra]. }
+  (* truncation *)
+  pose proof (Btrunc_err res) as TE.
+  change (Btrunc res) with (setter_raw_f scale offset mn mx signed len p) in TE, HT.
+  set (t' := setter_raw_f scale offset mn mx signed len p) in *.
+  pose proof (raw_abs_le signed len t' Hl HT) as Ht'.
+  assert (HR' : Rabs (IZR t') <= 4294967296).
+  { rewrite <- abs_IZR. change 4294967296 with (IZR (2 ^ 32)). apply IZR_le, Ht'. }
+  destruct (f64_of_Z_exact t' ltac:(change (2 ^ 53)%Z with (2 ^ 32 * 2 ^ 21)%Z; lia)) as [FV EV].
+  (* back to physical *)
+  destruct (linear_of_raw scale offset Fs Fo NS S1 S2 HO _ (IZR t') FV EV HR') as (Fx & BX & EX).
+  fold S O in EX. set (x' := fadd (fmul (f64_of_Z t') scale) offset) in *.
+  assert (D : Rabs (B2R x' - P) < 2 * Rabs S).
+  { replace (B2R x' - P) with (((B2R x' - O) / S - z) * S) by (unfold z; field; exact NS).
+    rewrite Rabs_mult. apply Rmult_lt_compat_r; [apply Rabs_pos_lt, NS|].
+    apply Rabs_lt. apply Rabs_le_inv in EX. apply Rabs_lt_inv in TE. lra. }
+  intros back. unfold back. change (to_physical_f scale offset mn mx (f64_of_Z t')) with (clamp_opt_f mn mx x').
+  unfold clamp_opt_f. destruct (declared_f mn mx) eqn:Dc; [|split; [exact Fx|exact D]].
+  destruct (clamp_f_ext mn mx x' Fmn Fmx Hle (fin_nn _ Fx)) as (F & E & _).
+  split; [exact F|]. rewrite E, (fin_ext _ Fx), Rmin_comm.
+  specialize (Hrange eq_refl).
+  assert (Hq : P - Rabs (B2R x' - P) <= B2R x' <= P + Rabs (B2R x' - P)).
+  { pose proof (Rabs_le_inv _ _ (Rle_refl (Rabs (B2R x' - P)))) as I. lra. }
+  set (d := Rabs (B2R x' - P)) in *.
+  pose proof (clamp_interval (B2R mn) (B2R mx) P (B2R x') d Hrange (Rabs_pos _) Hq) as CI.
+  apply Rle_lt_trans with d; [|exact D]. apply Rabs_le. lra.
+Qed.
+End PhysRoundTrip.
+
+(** the decidable physical round-trip clause (bound: two steps) holds of the model *)
+Theorem rt_phys_ok_model scale offset mn mx signed len p :
+  c09_class_f scale offset mn mx = true -> (1 <= len)%Z ->
+  rt_phys_ok_f 2 scale offset mn mx signed len p
+    (to_physical_f scale offset mn mx (f64_of_Z (setter_raw_f scale offset mn mx signed len p))) = true.
+Proof.
+  intros Hc Hl. unfold rt_phys_ok_f.
+  destruct ((len <=? 32)%Z) eqn:L; [|reflexivity]. cbn [andb].
+  destruct (resolves_f scale offset) eqn:Rs; [|reflexivity]. cbn [andb].
+  destruct (finiteb p) eqn:Fp; [|reflexivity]. cbn [andb].
+  destruct (in_range_f mn mx p) eqn:Ir; [|reflexivity]. cbn [andb].
+  destruct (in_representable_f scale offset signed len p) eqn:Ip; [|reflexivity].
+  apply Z.leb_le in L.
+  destruct (phys_roundtrip scale offset mn mx Hc Rs signed len p ltac:(lia) Fp Ir Ip) as [Fb B].
+  destruct (class_inv _ _ _ _ Hc) as (Hs & _). destruct (nonzerob_inv scale Hs) as [Fs _].
+  unfold finiteb. rewrite Fb. cbn [andb].
+  rewrite rt_bound_spec by assumption. apply Rlt_bool_true. exact B.
 Qed.
